@@ -109,13 +109,21 @@ func CheckEngine(c Node, o EngineOpts) Verdict {
 	// one more pass with the caller's tables as typed Go slices ([]map[string]any instead of []any): the same document
 	// to every reader of the statement, another Go type to the engine (which converts such tables when it builds the query)
 	typedPass := reps
-	for rep := 0; rep <= typedPass; rep++ {
+	// ... and one with equal parts of the document being one and the same Go object (a document built in Go may hold a
+	// slice or a map in several places; the specification's values have no identity, so nothing may depend on it)
+	for rep := 0; rep <= typedPass+1; rep++ {
 		doc := FromTagged(c["doc"]).(map[string]any)
 		if rep == typedPass {
 			if wantErr || !TypedTables(doc) {
-				break
+				continue
 			}
 			sig = append(append([]string{}, sig...), "typed-tables")
+		}
+		if rep == typedPass+1 {
+			if wantErr || !ShareEqualParts(doc) {
+				break
+			}
+			sig = append(append([]string{}, sig[:len(sig):len(sig)]...), "shared-parts")
 		}
 		ReExec = !o.NoReExec
 		out := Run(doc, sql, rep == 0, Opts(o.Options, nil, nil)...)
@@ -240,4 +248,47 @@ func TypedTables(doc map[string]any) bool {
 		}
 	}
 	return any_
+}
+
+// ShareEqualParts rebuilds the document so that equal non-empty arrays and objects below the top-level tables are one
+// and the same Go value wherever they occur; false when nothing occurs twice.
+func ShareEqualParts(doc map[string]any) bool {
+	pool := map[string]any{}
+	shared := false
+	var intern func(v any, depth int) any
+	intern = func(v any, depth int) any {
+		switch t := v.(type) {
+		case []any:
+			for i := range t {
+				t[i] = intern(t[i], depth+1)
+			}
+			if len(t) == 0 || depth < 1 {
+				return t
+			}
+			key := "a" + Canon(any(t))
+			if p, ok := pool[key]; ok {
+				shared = true
+				return p
+			}
+			pool[key] = t
+		case map[string]any:
+			for k := range t {
+				t[k] = intern(t[k], depth+1)
+			}
+			if len(t) == 0 || depth < 1 {
+				return t
+			}
+			key := "o" + Canon(any(t))
+			if p, ok := pool[key]; ok {
+				shared = true
+				return p
+			}
+			pool[key] = t
+		}
+		return v
+	}
+	for k, v := range doc {
+		doc[k] = intern(v, 0)
+	}
+	return shared
 }
